@@ -395,6 +395,7 @@ class HttpStreamSession:
         header: object | None = None,
         retry_config: HttpRetryConfig | None = None,
         compression_level: int | None = None,
+        capabilities: HttpServerCapabilities | None = None,
     ) -> None:
         """Initialize with HTTP client, method details, and initial state."""
         self._client = client
@@ -415,7 +416,9 @@ class HttpStreamSession:
         self._header = header
         self._retry_config = retry_config
         self._compression_level = compression_level
-        self._capabilities: HttpServerCapabilities | None = None
+        # Inherit what the proxy already learned (e.g. from a 415 on /init) so
+        # exchange/continuation bodies use a codec this server accepts.
+        self._capabilities: HttpServerCapabilities | None = capabilities
 
     def _maybe_externalize_request(self, body: bytes) -> bytes:
         """Pre-emptively externalize *body* if cached caps say it's too large.
@@ -970,6 +973,7 @@ def _init_http_stream_session(
     header: object | None = None,
     retry_config: HttpRetryConfig | None = None,
     compression_level: int | None = None,
+    capabilities: HttpServerCapabilities | None = None,
 ) -> HttpStreamSession:
     """Parse an init response and return an ``HttpStreamSession``.
 
@@ -988,6 +992,7 @@ def _init_http_stream_session(
         header: Optional pre-read stream header.
         retry_config: Optional retry configuration for transient failures.
         compression_level: Zstandard compression level for exchange requests.
+        capabilities: Server capabilities already discovered by the caller, if any.
 
     Returns:
         A configured ``HttpStreamSession`` ready for iteration or exchange.
@@ -1053,6 +1058,7 @@ def _init_http_stream_session(
         header=header,
         retry_config=retry_config,
         compression_level=compression_level,
+        capabilities=capabilities,
     )
 
 
@@ -1258,6 +1264,7 @@ class _HttpProxy:
             header=None,
             retry_config=self._retry_config,
             compression_level=self._compression_level,
+            capabilities=self._capabilities,
         )
 
     def __getattr__(self, name: str) -> Any:
@@ -1487,6 +1494,7 @@ class _HttpProxy:
                 header=header,
                 retry_config=retry_cfg,
                 compression_level=compression_level,
+                capabilities=self._capabilities,
             )
 
         return caller
